@@ -192,9 +192,23 @@ Definition tau_opts (c : cfg) (x : sst) (evs : list ev) : list sst :=
                           end
                      else []) (threads_of (ss x)).
 
-Definition memo := list (nat * state).
-Definition memo_has (n : nat) (s : state) (m : memo) : bool :=
-  existsb (fun p => Nat.eqb (fst p) n && state_eqb (snd p) s) m.
+(* failed states, bucketed by the number of log events still to be consumed *)
+Definition memo := list (list state).
+
+Fixpoint memo_has (n : nat) (s : state) (m : memo) : bool :=
+  match m, n with
+  | [], _ => false
+  | b :: _, O => existsb (state_eqb s) b
+  | _ :: m', S n' => memo_has n' s m'
+  end.
+
+Fixpoint memo_add (n : nat) (s : state) (m : memo) : memo :=
+  match m, n with
+  | [], O => [[s]]
+  | [], S n' => [] :: memo_add n' s []
+  | b :: m', O => (s :: b) :: m'
+  | b :: m', S n' => b :: memo_add n' s m'
+  end.
 
 (* result: accepted?, memo of failed (remaining length, state) pairs, remaining node budget.
    The search visits at most `budget` nodes; a log whose search runs out of budget is rejected
@@ -216,7 +230,7 @@ Fixpoint dfs (fuel : nat) (c : cfg) (x : sst) (evs : list ev) (m : memo) (budget
         let opts := match e with EL (LInv _) => evopt ++ taus | _ => taus ++ evopt end in
         (fix try (os : list (sst * list ev)) (m : memo) (b : N) : bool * memo * N :=
            match os with
-           | [] => (false, (length evs, ss x) :: m, b)
+           | [] => (false, memo_add (length evs) (ss x) m, b)
            | (y, evs1) :: os' =>
              let '(r, m', b') := dfs f c y evs1 m b in
              if r then (true, m', b') else try os' m' b'
@@ -225,7 +239,7 @@ Fixpoint dfs (fuel : nat) (c : cfg) (x : sst) (evs : list ev) (m : memo) (budget
   end.
 
 Definition search_depth := 4000.
-Definition search_budget : N := 60000.
+Definition search_budget : N := 40000.
 
 (* nodes visited by the search (for the evidence) *)
 Definition search_cost (c : cfg) (evs : list ev) : N :=
